@@ -30,10 +30,11 @@ ALL_OPS = ["gelu", "silu", "silu_glu", "softmax", "dropout", "matmul", "linear",
 UNSUPPORTED = {
     "silu": [("inplace", True)],
     "dropout": [("inplace", True)],
-    "add": [("alpha", 2)],
+    "add": [("alpha", 2), ("alpha", 0)],
     "embedding": [("scale_grad_by_freq", True), ("sparse", True)],
-    "cross_entropy": [("weight", "tensor"), ("size_average", True), ("reduce", True), ("label_smoothing", 0.1)],
-    "mse_loss": [("size_average", True), ("reduce", True)],
+    # falsy non-default values are requests too: size_average=False / reduce=False (default None) ask for a sum / no reduction
+    "cross_entropy": [("weight", "tensor"), ("size_average", True), ("reduce", True), ("label_smoothing", 0.1), ("size_average", False), ("reduce", False)],
+    "mse_loss": [("size_average", True), ("reduce", True), ("size_average", False), ("reduce", False)],
 }
 
 
